@@ -1,7 +1,7 @@
 """C04 — script encoding and decoding are inverse and canonical; predicted size exact (DESIGN 5/C04).
 
-Proof side: coq/Properties/C04.v (ser_parse, script_size_ok, lex_enc, decode_total, refutation
-of decode_canonical with its witness, partial decode_enc).
+Proof side: coq/Properties/C04.v (ser_parse / parse_ser, script_size_ok, lex_enc, decode_total,
+decode_enc via the decoder normal form, refutation of decode_canonical with its witness).
 Tie: the `codec` engine runs the real encoder / lexer / raw parser / three decoders on generated
 ASTs (four contexts), on systematically edited encodings, cross-context scripts, opcode soups and
 random bytes; ocaml/driver_codec (extracted from the Coq models) recomputes every observation;
